@@ -56,7 +56,7 @@ CONFIGS = {
     "sdr_2b_2p": (dict(phy="sdr_fast", bankbits=1, nports=2, timing=T_SMALL, ctrl=dict(cmd_buffer_depth=4)), 16, 20, "qt"),
     "ddr3_1_4_2b_2p": (dict(phy="ddr3_fast", bankbits=1, nports=2, timing=T_SMALL, ctrl=dict(cmd_buffer_depth=4)), 15, 19, "qt"),
     "ddr_1_2_2b_2p_noap": (dict(phy="ddr3_fast2", bankbits=1, nports=2, timing=T_FULL, ctrl=dict(cmd_buffer_depth=4, with_auto_precharge=False)), 0, 18, "t"),
-    "sdr_2b_2p_d1": (dict(phy="sdr_fast", bankbits=1, nports=2, timing=T_SMALL, ctrl=dict(cmd_buffer_depth=1)), 0, 16, "t"),
+    "sdr_2b_2p_d1": (dict(phy="sdr_fast", bankbits=1, nports=2, timing=T_SMALL, ctrl=dict(cmd_buffer_depth=1)), 15, 18, "qt"),
     "sdr_4b_3p": (dict(phy="sdr_fast", bankbits=2, nports=3, timing=T_SMALL, ctrl=dict(cmd_buffer_depth=4)), 0, 16, "t"),
     "sdr_2b_2p_buffered": (dict(phy="sdr_fast", bankbits=1, nports=2, timing=T_SMALL, ctrl=dict(cmd_buffer_depth=4, cmd_buffer_buffered=True)), 0, 18, "t"),
     "sdr_2b_1p_depth8": (dict(phy="sdr_fast", bankbits=1, nports=1, timing=T_SMALL, ctrl=dict(cmd_buffer_depth=8)), 0, 20, "t"),
